@@ -104,6 +104,23 @@ fn main() {
                 }
             }
         }
+        "run" => {
+            // debug aid: evaluate the forms of a file, optionally sliced: mwv run file.scm [budget ...]
+            sut::install_panic_hook();
+            let text = std::fs::read_to_string(&args[2]).expect("cannot read file");
+            let forms = mwv_core::sx::read_all(&text).expect("cannot parse");
+            let budgets: Vec<usize> = args[3..].iter().filter_map(|x| x.parse().ok()).collect();
+            let opts = session::RunOpts {
+                mode: if budgets.is_empty() { session::EvalMode::Whole } else { session::EvalMode::Sliced(budgets) },
+                ..Default::default()
+            };
+            let mut s = session::SutSession::new(opts);
+            for f in &forms {
+                let (r, o) = s.eval_form(f);
+                println!("{} => {}  out={:?}", f.to_string().chars().take(60).collect::<String>(), r.short(), o.len());
+                eprintln!("   sp={} heap={} instr={}", s.vm.verif_stack().get_sp(), s.vm.verif_heap().verif_cells().len(), s.vm.verif_instructions());
+            }
+        }
         "bench" => {
             let t = std::time::Instant::now();
             for _ in 0..200 {
@@ -123,7 +140,12 @@ fn main() {
             let rec: Value = serde_json::from_str(&text).expect("not JSON");
             let bytes = mwv_core::choice::unhex(rec["payload"]["bytes"].as_str().unwrap_or(""));
             let cfg = mwv_core::pg::Cfg { callcc: args.iter().any(|a| a == "--callcc"), ..Default::default() };
-            let s = mwv_core::pg::gen_session(&bytes, &cfg);
+            let skip: usize = args.iter().position(|a| a == "--skip").and_then(|i| args.get(i + 1)).and_then(|x| x.parse().ok()).unwrap_or(0);
+            let mut c = mwv_core::choice::Choices::new(&bytes);
+            for _ in 0..skip {
+                c.byte();
+            }
+            let s = mwv_core::pg::Gen::new(&mut c, cfg).session();
             for f in &s.forms {
                 println!("{}", f);
             }
